@@ -9,6 +9,30 @@ from tools import common as C
 from tools import lower
 
 
+EMPTY_LIST = os.path.join(C.SPEC, "empty_list.json")
+
+
+def const_sized(ldir, tag, nshards=8):
+    """Runs spec/MCConst.tla; returns (path of a JSON list of constant-sized (message, context) pairs, all ivs)."""
+    import concurrent.futures
+
+    def run(k):
+        env = {"WOWM_OBJECTS": os.path.join(ldir, "objects.ndjson"), "WOWM_BLOCKS": os.path.join(ldir, "blocks.ndjson"),
+               "WOWM_INDEX": os.path.join(ldir, "index.json"), "WOWM_NSHARDS": nshards, "WOWM_SHARD": k,
+               "WOWM_NPROF": 1, "WOWM_MAXLEN": 2, "WOWM_ONLY": "", "WOWM_DEEP": "0", "WOWM_FAULTS": "0",
+               "WOWM_FAULT_EVERY": 1, "WOWM_CONST": EMPTY_LIST}
+        return C.run_tlc("MCConst", workers=1, timeout=900, env=env, name="%s-const-%d" % (tag, k), coverage=False, xmx="3g")
+
+    with concurrent.futures.ThreadPoolExecutor(nshards) as ex:
+        results = list(ex.map(run, range(nshards)))
+    ivs = [r for x in results for r in x.replay]
+    const = [{"id": r["id"], "exp": r["exp"], "lv": r["lv"]} for r in ivs if r["lo"] == r["hi"]]
+    path = os.path.join(C.WORK, "const-%s.json" % tag)
+    with open(path, "w") as f:
+        json.dump(const, f)
+    return path, ivs, results
+
+
 def lowered_dir(name="lowered"):
     return os.path.join(C.WORK, name)
 
@@ -20,13 +44,15 @@ def prepare(name="lowered", extra_objects=None):
 
 
 def _run_shard(args):
-    (ldir, shard, nshards, nprof, maxlen, only, deep, workers, timeout, outpath, tag, simulate) = args
+    (ldir, shard, nshards, nprof, maxlen, only, deep, workers, timeout, outpath, tag, simulate, faults, fault_every, const_path) = args
     env = {
         "WOWM_OBJECTS": os.path.join(ldir, "objects.ndjson"),
         "WOWM_BLOCKS": os.path.join(ldir, "blocks.ndjson"),
         "WOWM_INDEX": os.path.join(ldir, "index.json"),
         "WOWM_NSHARDS": nshards, "WOWM_SHARD": shard, "WOWM_NPROF": nprof, "WOWM_MAXLEN": maxlen,
         "WOWM_ONLY": only, "WOWM_DEEP": "1" if deep else "0",
+        "WOWM_FAULTS": faults, "WOWM_FAULT_EVERY": fault_every,
+        "WOWM_CONST": const_path or EMPTY_LIST,
     }
     with open(outpath, "w") as sink:
         res = C.run_tlc("WowmWire", workers=workers, timeout=timeout, env=env,
@@ -37,13 +63,13 @@ def _run_shard(args):
 
 
 def run_wire(ldir, outdir, nshards=4, workers=4, nprof=1, maxlen=2, only="", deep=False, timeout=1500,
-             tag="wire", simulate=None):
+             tag="wire", simulate=None, faults="0", fault_every=1, const_path=None):
     """Returns (list of shard stats, list of record file paths)."""
     os.makedirs(outdir, exist_ok=True)
     jobs = []
     for s in range(nshards):
         jobs.append((ldir, s, nshards, nprof, maxlen, only, deep, workers, timeout,
-                     os.path.join(outdir, "records-%d.ndjson" % s), tag, simulate))
+                     os.path.join(outdir, "records-%d.ndjson" % s), tag, simulate, faults, fault_every, const_path))
     t0 = time.time()
     with concurrent.futures.ThreadPoolExecutor(max_workers=nshards) as ex:
         stats = list(ex.map(_run_shard, jobs))
